@@ -21,8 +21,11 @@ def c06(case, f):
             return "KF-11"
         # KF-39: the columns of a scalar sub-query in a select item come back from a nested analysis as (column, qualifier) and the qualifier
         # is looked up in the *outer* query's alias map: an alias, or the bare name of a schema-qualified table, falls through to Table(qualifier)
-        if (b in feat["select_subquery_aliases"] or b in feat["select_subquery_tables"]) and t.startswith("<default>."):
+        if (b in feat["select_subquery_aliases"] or b in feat["select_subquery_tables"] or b in feat["select_subquery_fullname_schemas"]) and t.startswith("<default>."):
             return "KF-39"
+        # KF-16e: the legacy analyzer takes the first part of schema.table.column as the qualifier: a phantom table named after the schema
+        if case.get("dialect") == "non-validating" and b in feat["fullname_schemas"]:
+            return "KF-16e"
     return None
 
 
@@ -45,6 +48,9 @@ def c18(case, f):
         # KF-23b: the legacy analyzer registers a CTE whose body is a set operation of parenthesised branches twice (whole body / first branch)
         if case.get("dialect") == "non-validating" and roots and roots <= (feat["same_alias_subqueries"] | feat["case_subquery_aliases"] | feat["cte_paren_setop_names"]):
             return "KF-23b"
+        # KF-23d: the legacy analyzer names a select-list scalar sub-query after the item's alias: the same alias in two set-operation branches
+        if case.get("dialect") == "non-validating" and roots and roots <= (feat["same_alias_subqueries"] | feat["case_subquery_aliases"] | feat["cte_paren_setop_names"] | feat["repeated_subquery_item_aliases"]):
+            return "KF-23d"
     return None
 
 
